@@ -495,4 +495,43 @@ theorem calc_blockdep_sim (a : Gen.AccRow) (prev op : BlockOp) (lp li l2 : List 
           py_exec [hio, hh, hio', hi2, hi2', hnone]
           exact rfl
 
+
+def encVol : Option (Option Area) → M (Option Vol)
+  | none => .error .zerodiv
+  | some none => .ok none
+  | some (some a) => .ok (some (pyArea a))
+
+def decPt (p : Num × Num × Num) : Pt := ⟨p.1.v, p.2.1.v, p.2.2.v⟩
+
+theorem relArea_encVol (m : Option (Option Area)) : RelArea (encVol m) m := by
+  cases m with
+  | none => exact ⟨_, rfl⟩
+  | some o => cases o <;> rfl
+
+/-- `OpaqueOk` is satisfiable for every accelerator row and pair of operations: take the model's own functions -/
+theorem opaqueOk_inhabited (a : Gen.AccRow) (prev op : BlockOp) :
+    ∃ ibd fin fout fhit, OpaqueOk a prev op ibd fin fout fhit := by
+  cases hc : classify a (some prev) op with
+  | none => exact ⟨.ok (.py 0), fun _ _ => .ok none, fun _ => .ok none, fun _ _ _ _ => .ok false, fun c h => by rw [hc] at h; cases h⟩
+  | some pc =>
+    obtain ⟨p, oc⟩ := pc
+    cases oc with
+    | none => exact ⟨.ok (.py 0), fun _ _ => .ok none, fun _ => .ok none, fun _ _ _ _ => .ok false, fun c h => by rw [hc] at h; cases h⟩
+    | some c =>
+      refine ⟨.ok (.py c.curIfmBlockDepth), fun _ f => encVol (c.inArea f.v.toNat), fun k => encVol (c.outArea k.v.toNat),
+        fun p1 p2 p3 p4 => .ok (c.hit ⟨decPt p1, decPt p2⟩ ⟨decPt p3, decPt p4⟩), ?_⟩
+      intro c' h
+      rw [hc] at h
+      have : c' = c := by
+        simp only [Option.some.injEq, Prod.mk.injEq] at h
+        exact h.2.symm
+      subst this
+      refine ⟨rfl, fun f => ?_, fun k => ?_, fun ia oa => rfl⟩
+      · have : (Num.py (f : Int)).v.toNat = f := by simp
+        simp only [this]
+        exact relArea_encVol _
+      · have : (Num.py (k : Int)).v.toNat = k := by simp
+        simp only [this]
+        exact relArea_encVol _
+
 end VelaVerif.SrcCalcBlockdep
